@@ -430,6 +430,8 @@ func runC06(r *Run) {
 
 func runC12(r *Run) {
 	const P = "C12"
+	// "already consumed earlier in the same chain": one chain, one call, one consumed set (shared with C03)
+	r.checkFullThenUpdate(P)
 	if f := r.fn(P, pkgParser, "Parser.ParseUpdateOperation"); f != nil {
 		ctx, _ := boolParamCtx(f, false)
 		r.requireSucc(P+".reuse.update", "if this fails, intake accepts an update whose next commitment is the commitment of the key it reveals", f, ctx, "batch=false",
